@@ -36,6 +36,7 @@ BOOL = _Prim('Bool')
 STR = _Prim('Str')
 ANY = _Prim('Any')      # opaque value, only passed through
 NONE = _Prim('None')    # the unit type of the constant None
+PATH = _Prim('Path')    # pathlib.Path value, modelled as its normalised POSIX string (DESIGN 2.4)
 
 
 class OptT(Ty):
@@ -119,7 +120,7 @@ def sort_of(t):
         s = z3.IntSort()
     elif t == BOOL:
         s = z3.BoolSort()
-    elif t == STR:
+    elif t == STR or t == PATH:
         s = z3.StringSort()
     elif t == ANY:
         s = AnySort
